@@ -28,6 +28,7 @@ fn run_check(id: &str, tier: Tier) -> Option<Report> {
         "C09" => checks::c09::run(tier),
         "C10" => checks::c10::run(tier),
         "C11" => checks::c11::run(tier),
+        "C12" => checks::c12::run(tier),
         "C17" => checks::c17::run(tier),
         _ => return None,
     })
@@ -44,6 +45,7 @@ fn replay_case(id: &str, case: &Value) -> Option<Vec<Failure>> {
         "C09" => checks::c09::replay(case),
         "C10" => checks::c10::replay(case),
         "C11" => checks::c11::replay(case),
+        "C12" => checks::c12::replay(case),
         "C17" => checks::c17::replay(case),
         _ => return None,
     })
@@ -121,5 +123,29 @@ mod smoke {
         assert!(o.error.is_none(), "{:?}", o.error);
         assert!(o.responses().contains_key(&id), "{:?}", o.frames);
         assert_eq!(o.notifications("textDocument/publishDiagnostics").len(), 1);
+    }
+}
+
+#[cfg(test)]
+mod family_tests {
+    use crate::common::Tier;
+    use crate::gen::ast::print_program;
+    use crate::gen::layout::*;
+    #[test]
+    fn typed_family_is_clean_in_refsem_and_counts() {
+        let f = crate::progs::typed_family(Tier::Quick);
+        let mut by = std::collections::BTreeMap::new();
+        for it in &f {
+            *by.entry(it.family).or_insert(0) += 1;
+            let pr = print_program(&it.program);
+            let sem = crate::gen::refsem::analyze(&it.program);
+            assert_eq!(sem.ntoks, pr.toks.len());
+            for o in &sem.occs {
+                assert_eq!(pr.toks[o.tok].text, o.name);
+            }
+        }
+        println!("{:?} total {}", by, f.len());
+        let pr = print_program(&f[0].program);
+        println!("{}", render_plain(&pr.toks, Layout::Pretty).text);
     }
 }
